@@ -489,10 +489,11 @@ PROPERTIES["C10"] = {
     "level_text": "bounded symbolic verification: for every value of the symbolic gradients (and feature cells where stated) the score returned by stump / affine / dense-table fitting equals the RSS of the learner's own predictions and is <= the RSS of every hypothesis of its class (hypothesis parameters universally quantified: any threshold for stumps with group-mean outputs, normal equations + every other feature for affine, any per-label table for dense tables); predictions are additive, zero on missing values, constant per split() group, and scale() multiplies them",
     "level_note": SRE_NOTE,
     "technique": SRE_TECH,
-    "explanation": "C10: wlearner_t::fit/predict/split/scale/clone of stump, affine and dense-table learners through the real dataset + select_iterator stack with the RSS criterion.",
+    "explanation": "C10: wlearner_t::fit/predict/split/scale/clone of stump, affine, dense-table, hinge, dstep/kbest/ksplit-table learners and depth-1 trees through the real dataset + select_iterator stack with the RSS criterion; merging of learners.",
     "assumptions": SRE_ASSUME + ["gradients boxed to [-8,8]; feature cells symbolic in [-8,8] (cx=0) or concrete (cx=1)", "one output (regression target)", "RSS criterion (make_score clamps at 1e3*epsilon; reference clamps identically)"],
     "bounds": {"samples": "3..4", "features": "1..3 scalar / 1..2 categorical (3 classes)", "missing patterns": "0, 1", "sample subsets": "all / with repetition"},
-    "outside": ["fitting of hinge, dstep, kbest/ksplit tables and decision trees (depth > 1): not covered (merging IS covered for table and affine learners in arbitrary label->table mapping states)", "16 threads", "more than 4 samples with fully symbolic data (nlsat returns unknown on the optimality inequalities)", "aic/aicc/bic criteria (log)"],
+    "outside": ["decision trees of depth > 1; optimality of hinge with fully symbolic features and gradients (nlsat returns unknown: unit C10_more uses concrete feature values and 1-3 symbolic gradients, thorough tier attempts the symbolic case)",
+                "k-best / k-split tables: only the clauses the property states for every learner (zero where unassigned, constant per group, scale); the equality score = RSS of own predictions is NOT demanded of them (see DESIGN.md: k-best tables with >= 2 labels violate it)", "16 threads", "more than 4 samples with fully symbolic data (nlsat returns unknown on the optimality inequalities)", "aic/aicc/bic criteria (log)"],
     "units": [
         {"engine": "sre", "harness": "C10_wlearner", "sources": ["C10_wlearner.cpp"],
          "quick": ["wl=stump;f=rr;n=3", "wl=stump;f=rrr;n=3;miss=1", "wl=stump;f=rrr;n=4;cx=1;sub=1", "wl=affine;f=rr;n=3", "wl=affine;f=rrr;n=4;cx=1", "wl=affine;f=rrr;n=3;cx=1;miss=1",
@@ -510,6 +511,19 @@ PROPERTIES["C10"] = {
          "thorough": ["kind=table;map1=%s;map2=%s;map3=%s;f2=%d" % (a, b, c, f) for a in ("abc", "aab", "aba", "abb", "aaa") for b in ("abc", "aab", "abb") for c in ("-", "aab") for f in (0, 1)] +
                      ["kind=affine", "kind=affine;f2=1", "kind=mixed;map1=aab;map2=aab", "kind=mixed;map1=abc;map2=abc;f2=1", "kind=table;map1=aab;map2=aab;miss=1"],
          "encoded": ["nano::wlearner::merge", "nano::table_wlearner_t::try_merge", "nano::affine_wlearner_t::try_merge", "nano::single_feature_wlearner_t::do_try_merge", "nano::table_wlearner_t::do_predict", "nano::affine_wlearner_t::do_predict"]},
+        {"engine": "sre", "harness": "C10_more", "sources": ["C10_more.cpp"],
+         "quick": ["wl=hinge;f=rr;n=4;cx=1;gsym=2", "wl=hinge;f=rrr;n=5;cx=1;gsym=1", "wl=hinge;f=rrr;n=4;cx=1;gsym=2;miss=1", "wl=hinge;f=rrr;n=5;cx=1;gsym=2;sub=1",
+                   "wl=dstep-table;f=sr;n=5;gsym=2", "wl=dstep-table;f=ssr;n=4;miss=1;gsym=3", "wl=dtree;f=rrr;n=4;cx=1;gsym=2", "wl=dtree;f=rr;n=5;cx=1;gsym=2;miss=1",
+                   "wl=kbest-table;f=sr;n=4;gsym=3", "wl=ksplit-table;f=ssr;n=4;gsym=3"],
+         "thorough": ["wl=hinge;f=%s;n=%d;cx=1;gsym=%d;miss=%d;sub=%d" % t for t in (("rr", 4, 2, 0, 0), ("rrr", 5, 1, 0, 0), ("rrr", 4, 2, 1, 0), ("rrr", 5, 2, 0, 1), ("rrrr", 5, 2, 1, 0), ("rr", 6, 2, 0, 0), ("rr", 4, 3, 0, 0))] +
+                     ["wl=hinge;f=rr;n=3", "wl=hinge;f=rr;n=3;cx=1"] +
+                     ["wl=dstep-table;f=%s;n=%d;gsym=%d;miss=%d" % t for t in (("sr", 5, 2, 0), ("ssr", 4, 3, 1), ("sr", 4, 4, 0), ("ssr", 5, 2, 4))] +
+                     ["wl=dtree;f=rrr;n=4;cx=1;gsym=2", "wl=dtree;f=rr;n=5;cx=1;gsym=2;miss=1", "wl=dtree;f=rrr;n=4;cx=1;gsym=3;sub=1", "wl=kbest-table;f=sr;n=4;gsym=3", "wl=kbest-table;f=ssr;n=5;gsym=2;miss=1",
+                      "wl=ksplit-table;f=ssr;n=4;gsym=3", "wl=ksplit-table;f=sr;n=5;gsym=2"],
+         "budget": {"quick": {"deadline_s": 90, "max_paths": 20000}, "thorough": {"deadline_s": 900, "max_paths": 300000, "query_s": 30}},
+         "encoded": ["nano::hinge_wlearner_t::{do_fit, do_predict, do_split}", "(anonymous)::cache_t (hinge): beta, score_neg/score_pos", "nano::dstep_table_wlearner_t::do_fit", "nano::kbest_table_wlearner_t::do_fit", "nano::ksplit_table_wlearner_t::do_fit",
+                     "table_wlearner_t::cache_t::{score_kbest, score_ksplit}", "nano::wlearner::accumulator_t::{sort, cluster}", "nano::dtree_wlearner_t::{do_fit, do_predict}", "nano::stump_wlearner_t (reference for depth-1 trees)",
+                     "nano::single_feature_wlearner_t::scale", "nano::cluster_t"]},
     ],
 }
 
